@@ -144,7 +144,9 @@ type fgen struct{ r *rand.Rand }
 func (g *fgen) pick(ss []string) string { return ss[g.r.Intn(len(ss))] }
 func (g *fgen) chance(p float64) bool   { return g.r.Float64() < p }
 
-var fNames = []string{"x", "y", "k", "AND", "NOT", "attributes", "hasPrefix", "a b", "", "é", "_u1", "x9", "日", "a\"q", "a\\b", "٣x", "ж٣", "OR", "-", "x.y"}
+var fNames = []string{"x", "y", "k", "AND", "NOT", "attributes", "hasPrefix", "a b", "", "é", "_u1", "x9", "日", "a\"q", "a\\b", "٣x", "ж٣", "OR", "-", "x.y",
+	// names that are a keyword in another letter case: plain identifiers, never the keyword
+	"or", "and", "not", "Not", "aNd", "Or", "Attributes", "hasprefix", "ATTRIBUTES"}
 var fValues = []string{"", "v", "vw", "w", "日日", "q\"uote", "back\\slash", "new\nline", "tab\t", "€", "é", "\x01", " ", "AND", ")", " ", "😀"}
 
 func (g *fgen) ws() string {
@@ -300,7 +302,38 @@ func (g *fgen) cond(depth int, q bool) string {
 	return s
 }
 
-var mutTokens = []string{"AND", "OR", "NOT", "-", "(", ")", "attributes", "hasPrefix", ":", ".", ",", "=", "!", "!=", `"v"`, "x", "5", "1.5", "'c'", "`raw`", "/*", "//", "\"", "\\", "+", "€", "é"}
+var mutTokens = []string{"AND", "OR", "NOT", "-", "(", ")", "attributes", "hasPrefix", ":", ".", ",", "=", "!", "!=", `"v"`, "x", "5", "1.5", "'c'", "`raw`", "/*", "//", "\"", "\\", "+", "€", "é",
+	"and", "or", "not", "And", "Not", "Attributes", "hasprefix", "HASPREFIX", "nOT"}
+
+// recase gives a keyword in another letter case (the grammar's keywords are case-sensitive)
+func (g *fgen) recase(t string) string {
+	switch g.r.Intn(3) {
+	case 0:
+		return strings.ToLower(t)
+	case 1:
+		return strings.ToUpper(t)
+	}
+	if len(t) > 1 {
+		return strings.ToUpper(t[:1]) + strings.ToLower(t[1:])
+	}
+	return t
+}
+
+// deep nests a sentence in k pairs of parentheses, some of them negated
+func (g *fgen) deep(k int) string {
+	s := g.basic(false)
+	for i := 0; i < k; i++ {
+		neg := ""
+		if g.chance(0.2) {
+			neg = g.pick([]string{"NOT ", "-", "NOT"})
+		}
+		s = neg + "(" + g.ows() + s + g.ows() + ")"
+		if g.chance(0.1) {
+			s += " " + g.pick([]string{"AND", "OR"}) + " " + g.basic(false)
+		}
+	}
+	return s
+}
 
 // mutate applies one token-level mutation to a sentence (tokens approximated by
 // splitting at spaces and around punctuation)
@@ -310,7 +343,17 @@ func (g *fgen) mutate(s string) string {
 		return g.pick(mutTokens)
 	}
 	i := g.r.Intn(len(toks))
-	switch g.r.Intn(5) {
+	switch g.r.Intn(6) {
+	case 5: // a keyword in another letter case
+		for j := 0; j < len(toks); j++ {
+			k := (i + j) % len(toks)
+			switch toks[k] {
+			case "AND", "OR", "NOT", "attributes", "hasPrefix":
+				toks[k] = g.recase(toks[k])
+				return strings.Join(toks, " ")
+			}
+		}
+		toks[i] = g.recase(toks[i])
 	case 0: // delete
 		toks = append(toks[:i], toks[i+1:]...)
 	case 1: // duplicate
@@ -457,6 +500,16 @@ func cmdFilterDiff(args []string) error {
 	g := &fgen{r: rand.New(rand.NewSource(*seed))}
 	var outs []fOutcome
 	add := func(class, src string, maps []map[string]string) {
+		// ... and maps holding the names the text mentions, in every letter case the pool has
+		// (a random map rarely contains the one key that tells two readings of the text apart)
+		low := strings.ToLower(src)
+		extra := 0
+		for _, n := range fNames {
+			if n != "" && extra < 6 && strings.Contains(low, strings.ToLower(n)) && len(n) > 1 {
+				maps = append(maps, map[string]string{n: g.pick(fValues)})
+				extra++
+			}
+		}
 		o := runFilter(src, maps)
 		o.Class = class
 		outs = append(outs, o)
@@ -473,6 +526,14 @@ func cmdFilterDiff(args []string) error {
 	}
 	for i := 0; i < *fuzz; i++ {
 		add("fuzz", g.fuzz(), g.attrMaps(2))
+	}
+	// nesting far deeper than the grammar generator produces (every depth 1..12, then up to 60)
+	for k := 1; k <= 12+*n/50; k++ {
+		d := k
+		if k > 12 {
+			d = 12 + g.r.Intn(48)
+		}
+		add("deep", g.deep(d), g.attrMaps(5))
 	}
 	srcs, maps := exhaustiveFilters()
 	nexh := 0
@@ -550,6 +611,9 @@ var filterCorpus = []string{
 	`attributes:é AND attributes:日`,
 	"attributes:x ",
 	`attributes . x ! = "v"`,
+	`attributes:or`, `attributes.not = "v"`, `hasPrefix(attributes.And, "v")`, // keyword-like names keep their spelling
+	`attributes:x and attributes:y`, `not attributes:x`, `Attributes:x`, `hasprefix(attributes.x,"v")`, `attributes:x Or attributes:y`,
+	`(((((((((attributes.k = "v")))))))))`, `NOT(NOT(NOT(NOT(NOT(NOT(NOT(NOT(NOT(NOT(attributes:x))))))))))`,
 }
 
 func init() { subcmds["filter-diff"] = cmdFilterDiff }
